@@ -262,6 +262,18 @@ func (g *gen) normalize(s *S) {
 	if g.noUnique {
 		s.Unique = nil
 	}
+	// A single allOf/anyOf/oneOf member and a $ref are hoisted into a conjunction with
+	// the other keywords of this object.  Where the two sides constrain the same nested
+	// position (items, a property) with a closed struct on one side and an open one on
+	// the other, the evaluator loses the closedness (C13-F13); Encode.v only tracks this
+	// at the top level of the conjuncts, so closed structs are kept out of such objects.
+	if len(s.AllOf) == 1 || len(s.AnyOf) == 1 || len(s.OneOf) == 1 || s.Ref != nil {
+		s.walk(func(x *S) {
+			if !x.IsBool && x.Addl != nil && x.Addl.IsBool && !x.Addl.B {
+				x.Addl = nil
+			}
+		})
+	}
 	if g.chain {
 		// `#name` embedded at the file root closes the root value (structs and
 		// lists); keep references below properties/items/not/...
